@@ -335,14 +335,25 @@ def effect_case(c, rng_seed):
     # 4. encode_phase = modify with the frequency map (only meaningful when the pulse has no array parameters)
     if not arr:
         grad, fov, npt = rng.choice([5.0, 10.0]), rng.choice([20.0, 30.0]), rng.choice([3, 5])
-        enc = rfpulse.encode_phase(p, grad, fov, npoint=npt)
-        freqs = utils.space_to_freq(grad, utils.spatial_range(fov, npt))
+        gam = rng.choice([None, "1H", "23Na", "23Na", 10000.0])
+        gval = {None: 42576.0, "1H": 42576.0, "23Na": 11262.0}.get(gam, gam)      # kHz/T, independent of epgpy.utils
+        gkw = {} if gam is None else {"gamma": {"1H": utils.gamma_1H, "23Na": utils.gamma_23Na}.get(gam, gam)}
+        if rng.random() < 0.4:
+            positions = np.array(sorted(rng.sample([-0.5, -0.3, -0.1, 0.0, 0.2, 0.45, 0.5], npt))) * fov
+            fovarg = positions
+        else:
+            positions = fov * np.linspace(-0.5, 0.5, npt)
+            fovarg = fov
+        enc = rfpulse.encode_phase(p, grad, fovarg, npoint=npt, **gkw)
+        # frequency map (kHz) = gradient (mT/m) * 1e-6 * gamma (kHz/T) * position (mm), computed here
+        freqs = grad * 1e-6 * gval * positions
         freqs = np.expand_dims(freqs, tuple(range(len(p.shape))))
         mod = functions.modify(p, g=freqs, expand=False)
         a, b = enc(sm0), mod(sm0)
         e = maxdiff(a, b)
         if not e <= 1e-10:
-            probs.append(("encode_phase differs from modify(pulse, g=freqs) by %.3g" % e, {"check": "encode-phase"}))
+            probs.append(("encode_phase(gradient=%r, positions=%r, gamma=%r) differs from modify(pulse, g=gradient*1e-6*gamma*positions) by %.3g"
+                          % (grad, [float(x) for x in positions], gam, e), {"check": "encode-phase"}))
         # by hand: every T of positive duration followed by P(duration, freqs)
         sm = sm0
         for op in p.operators:
@@ -515,18 +526,28 @@ def struct_terms(ctx, cases):
             grad, fov, npt = ctx.rng.choice([4.0, 10.0]), ctx.rng.choice([16.0, 24.0]), ctx.rng.choice([3, 5])
             rw = ctx.rng.choice([None, True, 0.25])
             j = ctx.rng.randrange(npt)
+            # gyromagnetic ratio: default (1H), explicit 1H, 23Na, an arbitrary value; fov scalar or explicit positions
+            gam = ctx.rng.choice([None, None, "1H", "23Na", "23Na", 10000.0, 6536.0])
+            gval = {None: utils.gamma_1H, "1H": utils.gamma_1H, "23Na": utils.gamma_23Na}.get(gam, gam)
+            gkw = {} if gam is None else {"gamma": gval}
+            if ctx.rng.random() < 0.4:
+                positions = [float(fov) * t for t in sorted(ctx.rng.sample([-0.5, -0.375, -0.25, 0.0, 0.125, 0.25, 0.5], npt))]
+                fovarg = np.array(positions)
+            else:
+                positions = [float(t) for t in utils.spatial_range(fov, npt)]
+                fovarg = fov
             try:
-                enc = rfpulse.encode_phase(p, grad, fov, npoint=npt, rewind=rw)
+                enc = rfpulse.encode_phase(p, grad, fovarg, npoint=npt, rewind=rw, **gkw)
                 eobs = observe_ops(enc.operators, j)
             except Exception as e:
-                ctx.report("encode_phase raised %s: %s" % (type(e).__name__, str(e)[:150]), {"case": c, "encode": [grad, fov, npt, rw]},
+                ctx.report("encode_phase raised %s: %s" % (type(e).__name__, str(e)[:150]), {"case": c, "encode": [grad, positions, npt, rw, gam]},
                            found_input=True, signature={"function": "encode_phase", "raises": type(e).__name__})
                 continue
-            x = float(utils.spatial_range(fov, npt)[j])
+            x = positions[j]
             rwq = "None" if rw is None else "(Some %s)" % q(0.5 if rw is True else rw)
-            terms.append("(enc_ok %s %s %s %s %s %s %s)" % (c_model_call(c), q(float(p.duration)), q(grad), q(float(utils.gamma_1H)), q(x), rwq, c_obs(eobs)))
-            kept.append((dict(c, encode=[grad, fov, npt, rw, j]), "encode", eobs))
-            ctx.count((c, "enc", grad, fov, npt, rw, j))
+            terms.append("(enc_ok %s %s %s %s %s %s %s)" % (c_model_call(c), q(float(p.duration)), q(grad), q(float(gval)), q(x), rwq, c_obs(eobs)))
+            kept.append((dict(c, encode=[grad, positions, npt, rw, j, gam]), "encode", eobs))
+            ctx.count((c, "enc", grad, tuple(positions), rw, j, gam))
     return terms, kept
 
 
@@ -645,11 +666,12 @@ def replay(ctx, rp):
             return 0 if v[0] else 1
         return 1 if (probs or prob) else 0
     if k == "struct":
-        grad, fov, npt, rw, j = c["encode"]
-        from epgpy import rfpulse
+        grad, positions, npt, rw, j, gam = c["encode"]
+        from epgpy import rfpulse, utils
         p = build_pulse(c)
+        gkw = {} if gam is None else {"gamma": {"1H": utils.gamma_1H, "23Na": utils.gamma_23Na}.get(gam, gam)}
         try:
-            enc = rfpulse.encode_phase(p, grad, fov, npoint=npt, rewind=rw)
+            enc = rfpulse.encode_phase(p, grad, np.array(positions), npoint=npt, rewind=rw, **gkw)
             print("replay: encode_phase operators", observe_ops(enc.operators, j))
         except Exception as e:
             print("replay: encode_phase raised", type(e).__name__, e)
